@@ -600,6 +600,9 @@ class ExprMixin:
         saved = st.env.get(name, _MISSING)
         if isinstance(it, VComp) and it.over[0] == "mapkeys":
             it = VSet(it.over[1].key, it.over[1].dom)
+        if isinstance(it, VSeq) and it.items is None and ("enum_of", it.arr.get_id()) in st.ghost:
+            # a duplicate-free enumeration of a set (list(s), sorted(s)): the comprehension ranges over the set itself
+            it = st.ghost[("enum_of", it.arr.get_id())]
         if isinstance(it, VSet):
             x = it.elem.fresh(self.ctx, "cx_" + name)
             dom = it.contains(x)
